@@ -14,8 +14,11 @@
 (*                                   slab entries at that time              *)
 (*   resp  {run,id,st}               a response read from the channel       *)
 (*   probe {run,l,h,out}             what a client observed on listener l   *)
-(*   view  {run,c,present,hc,hf,tf,be}  the worker's QueryClusterById(c)    *)
-(*                                   answer in the spec's ids               *)
+(*   view  {run,c,present,hc,hf,tf,be[,uf,alt]}  the worker's               *)
+(*                                   QueryClusterById(c) answer in the      *)
+(*                                   spec's ids (uf / alt: udp frontends,   *)
+(*                                   alternative definition; absent in      *)
+(*                                   older recordings)                      *)
 (*   exit  {run,how}                 the worker thread ended (clean/panic/  *)
 (*                                   hang)                                  *)
 (*   hold  {run,a} / release {run,a} the harness bound / dropped a plain    *)
@@ -53,13 +56,16 @@ T_Reset ==
   /\ cfg' = CfgInit /\ rl' = {} /\ slabL' = {} /\ base' = SysEntries /\ rcl' = {} /\ rbe' = {}
   /\ queue' = <<>> /\ out' = <<>> /\ n' = 0 /\ term' = [j \in 1..MaxReq |-> 0]
   /\ shut' = 0 /\ stopped' = FALSE /\ handed' = FALSE /\ allOk' = TRUE /\ hist' = <<>> /\ prev' = <<>>
-  /\ gate' = TRUE /\ pending' = {} /\ crashed' = FALSE /\ held' = {}
+  /\ gate' = TRUE /\ pending' = {} /\ crashed' = FALSE /\ held' = {} /\ ralt' = {}
   /\ rd' = 0 /\ Consume
 
 T_Send == Is("send") /\ Consume /\ UNCHANGED <<vars, rd>>
 
 Pushed(st) == LET new == SubSeq(queue', Len(queue) + 1, Len(queue'))
               IN Cardinality({j \in 1..Len(new) : new[j].st = st /\ new[j].id = Ev.id})
+\* status "final" (the answer of a malformed request): one terminal answer, Ok or Failure
+PushedOk(e) == /\ e.ok >= Pushed("ok") /\ e.failure >= Pushed("failure")
+               /\ e.ok + e.failure = Pushed("ok") + Pushed("failure") + Pushed("final")
 
 T_Cmd ==
   /\ Is("cmd")
@@ -71,13 +77,15 @@ T_Cmd ==
   /\ Ev.slab <= SysEntries + Cardinality(slabL') + Ev.extra
   /\ IF Ev.k = "HardStop"
      THEN Ev.processing = 1 /\ Ev.ok = 0 /\ Ev.failure = 0     \* the final Ok is written after the hook point
-     ELSE Ev.ok = Pushed("ok") /\ Ev.failure = Pushed("failure") /\ Ev.processing = Pushed("processing")
+     ELSE PushedOk(Ev) /\ Ev.processing = Pushed("processing")
   /\ UNCHANGED rd /\ Consume
 
 T_Resp ==
   /\ Is("resp")
   /\ rd < Len(out)
-  /\ out[rd + 1] = [id |-> Ev.id, st |-> Ev.st]
+  /\ out[rd + 1].id = Ev.id
+  /\ \/ out[rd + 1].st = Ev.st
+     \/ out[rd + 1].st = "final" /\ Ev.st \in {"ok", "failure"}
   /\ rd' = rd + 1 /\ Consume /\ UNCHANGED vars
 
 T_Probe ==
@@ -95,6 +103,8 @@ T_View ==
        /\ AsSet(Ev.hf) = {f \in cfg.hf : FDef[f].cluster = Ev.c}
        /\ AsSet(Ev.tf) = {t \in cfg.tf : TDef[t].cluster = Ev.c}
        /\ AsSet(Ev.be) = {b \in cfg.be : BDef[b].cluster = Ev.c}
+       /\ "uf" \in DOMAIN Ev => AsSet(Ev.uf) = {u \in cfg.uf : UDef[u].cluster = Ev.c}
+       /\ "alt" \in DOMAIN Ev => Ev.alt = (Ev.c \in cfg.alt)
   /\ Consume /\ UNCHANGED <<vars, rd>>
 
 T_Exit ==
